@@ -685,7 +685,34 @@ func benchstatTables(paths []string, rowBy, colBy string) (*benchtab.Tables, err
 	return stat.ToTables(benchtab.TableOpts{Confidence: 0.95, Thresholds: &thresholds, Units: files.Units()}), nil
 }
 
+// unitMask, when non-zero, fixes which units the following sampleLines calls report
+// (bit 0 ns/op, bit 1 B/op, bit 2 allocs/op): files reporting different units give the tables of
+// ONE run different column sets.
+var unitMask int
+
+func maskedLines(sb *strings.Builder, r *hx.Rand, name string, scale float64) {
+	n := 1 + r.Intn(7)
+	base := []float64{3.2, 1718, 1.5e6, 0.85, 1023}[r.Intn(5)] * scale
+	for i := 0; i < n; i++ {
+		fmt.Fprintf(sb, "Benchmark%s-8 \t%d", name, 1+r.Intn(1000))
+		if unitMask&1 != 0 {
+			fmt.Fprintf(sb, "\t%s ns/op", strconv.FormatFloat(base*(1+0.02*(r.Float()-0.5)), 'g', 5, 64))
+		}
+		if unitMask&2 != 0 {
+			fmt.Fprintf(sb, "\t%d B/op", 1+r.Intn(5000000))
+		}
+		if unitMask&4 != 0 {
+			fmt.Fprintf(sb, "\t%d allocs/op", 1+r.Intn(30))
+		}
+		sb.WriteString("\n")
+	}
+}
+
 func sampleLines(sb *strings.Builder, r *hx.Rand, name string, scale float64, tags map[string]bool) {
+	if unitMask != 0 {
+		maskedLines(sb, r, name, scale)
+		return
+	}
 	n := 1 + r.Intn(7)
 	if r.Chance(1, 3) {
 		n = 6 + r.Intn(5) // enough samples for a significant difference
@@ -758,6 +785,14 @@ func filesScenario(r *hx.Rand, dir string) scenario {
 		pkgs = []string{"p/one", "p/two"}
 	}
 	f14 := nfiles >= 2 && r.Chance(1, 3)
+	// units present in different files: the tables of this run have different column sets with the
+	// same first column (and often the same number of columns)
+	var masks []int
+	if nfiles == 3 && r.Chance(1, 2) {
+		f14 = false
+		tags["colsets"] = true
+		masks = [][]int{{3, 1, 2}, {7, 1, 2}, {7, 3, 5}, {3, 2, 1}, {7, 6, 1}, {7, 4, 2}}[r.Intn(6)]
+	}
 	var paths []string
 	labels := []string{"old", "new", "exp-with-a-long-name"}
 	for f := 0; f < nfiles; f++ {
@@ -783,7 +818,11 @@ func filesScenario(r *hx.Rand, dir string) scenario {
 			scale = []float64{0.5, 0.9, 1.1, 2, 1000}[r.Intn(5)]
 		}
 		p := filepath.Join(dir, fmt.Sprintf("f%d.txt", f))
+		if len(masks) > 0 {
+			unitMask = masks[f]
+		}
 		os.WriteFile(p, []byte(genFile(r, benches, pkgs, scale, tags)), 0o666)
+		unitMask = 0
 		if r.Chance(2, 3) {
 			paths = append(paths, labels[f]+"="+p)
 		} else {
@@ -934,7 +973,7 @@ func tagList(tags map[string]bool, order []string) string {
 	return strings.Join(tl, "+")
 }
 
-var e2eTags = []string{"widehdr", "numtie", "zero", "compare", "nodelta", "missing", "tables", "levels2", "levels3", "levels4", "levels5", "multirow", "units", "warn"}
+var e2eTags = []string{"colsets", "widehdr", "numtie", "zero", "compare", "nodelta", "missing", "tables", "levels2", "levels3", "levels4", "levels5", "multirow", "units", "warn"}
 
 func runScenario(sc scenario) {
 	myid := id
@@ -996,6 +1035,13 @@ func e2eCases(r *hx.Rand) {
 	runScenario(scenario{[]string{filepath.Join(dir, "z.txt")}, ".fullname", "note", map[string]bool{"zero": true, "compare": true}})
 	os.WriteFile(filepath.Join(dir, "z1.txt"), []byte("note: base\nBenchmarkA-8 1 5 ns/op\nnote: zero\nBenchmarkA-8 1 0 ns/op\nnote: pos\nBenchmarkA-8 1 6 ns/op\n"), 0o666)
 	runScenario(scenario{[]string{filepath.Join(dir, "z1.txt")}, ".fullname", "note", map[string]bool{"zero": true, "compare": true}})
+	// C16-N witness: a.txt reports ns/op and B/op, b.txt only ns/op, c.txt only B/op: two tables in one
+	// run with the same first column and the same number of columns but different second columns
+	os.WriteFile(filepath.Join(dir, "a.txt"), []byte("BenchmarkX-8 1 5 ns/op 30 B/op\nBenchmarkY-8 1 6 ns/op 40 B/op\n"), 0o666)
+	os.WriteFile(filepath.Join(dir, "b.txt"), []byte("BenchmarkX-8 1 7 ns/op\nBenchmarkY-8 1 8 ns/op\n"), 0o666)
+	os.WriteFile(filepath.Join(dir, "c.txt"), []byte("BenchmarkX-8 1 50 B/op\nBenchmarkY-8 1 60 B/op\n"), 0o666)
+	runScenario(scenario{[]string{filepath.Join(dir, "a.txt"), filepath.Join(dir, "b.txt"), filepath.Join(dir, "c.txt")}, ".fullname", ".file",
+		map[string]bool{"colsets": true, "compare": true, "units": true}})
 	n := hx.N(150, 3000)
 	for i := 0; i < n; i++ {
 		if i%2 == 0 {
